@@ -4,13 +4,14 @@ Only the property text and a scratch worktree path are handed over (nothing from
 import json, sys
 pid = sys.argv[1]
 wt = sys.argv[2]
+round2 = len(sys.argv) > 3 and sys.argv[3] == '2'
 for l in open('/verif/properties.jsonl'):
     p = json.loads(l)
     if p['id'] == pid:
         break
 else:
     sys.exit('no such property')
-print(f"""You are helping to evaluate a verification tool. Your job: craft realistic, subtle code changes ("seeded defects") to a Go library so that a stated semantic property no longer holds, while the library still compiles and its existing test suite still passes.
+text = (f"""You are helping to evaluate a verification tool. Your job: craft realistic, subtle code changes ("seeded defects") to a Go library so that a stated semantic property no longer holds, while the library still compiles and its existing test suite still passes.
 
 The library is openacid/low (Go module github.com/openacid/low): a small utility library of succinct bit-level primitives. You have your own scratch git worktree of it at {wt} . Work ONLY inside that directory. Never read or write anything under /repo or /verif (they are off limits), and do not use the network (there is none).
 
@@ -35,3 +36,7 @@ Deliverables, all under {wt}/_out/ (create the directory):
   zz_demo_m1_test.go, zz_demo_m2_test.go   — copies of the demonstrations, with a first-line comment saying in which package directory each belongs
   notes.md              — for each change: what it does, the exact condition needed for it to manifest, the commands you ran and their outcome (suite passes with change; demo fails with change; demo passes without)
 When you are done, leave the worktree itself clean of your library change (git checkout -- . ; the _out directory stays) and reply with a short summary (under 200 words) of the two changes and what triggers them.""")
+if round2:
+    text = text.replace("4. needs something SPECIFIC to manifest:", "4. is HARD to hit: it must not show on typical or uniformly random inputs (aim for fewer than 1 in 10,000 random inputs / histories, or a sequence of at least three dependent operations, or a precise size / alignment / parity threshold combined with a particular bit pattern, or a rarely taken error path, or two cooperating sites in different files that each look fine alone, or a helper / table / shared utility in a DIFFERENT file than the obvious one). It needs something SPECIFIC to manifest:")
+    text = text.replace("_out/", "_out2/").replace("m1", "m3").replace("m2", "m4")
+print(text)
